@@ -180,7 +180,13 @@ func (b builder) assertion(parent *etree.Element, s AssertionSpec) *etree.Elemen
 				setAttr(a, "NameFormat", at.NameFormat)
 			}
 			for _, v := range at.Values {
-				b.mk(a, NSA, "AttributeValue").SetText(v)
+				av := b.mk(a, NSA, "AttributeValue")
+				if at.Typed {
+					av.CreateAttr("xmlns:xs", "http://www.w3.org/2001/XMLSchema")
+					av.CreateAttr("xmlns:xsi", "http://www.w3.org/2001/XMLSchema-instance")
+					av.CreateAttr("xsi:type", "xs:string")
+				}
+				av.SetText(v)
 			}
 		}
 	}
